@@ -18,9 +18,11 @@ shared heap (groups, gates).  Labels are the harness-visible events of `harness/
 library-internal steps (`reap`, `deliver`, `silentEnd`) whose position between visible events is chosen by the
 event loop.  User code is unconstrained: `raise`, `caught`, `spawn`, `await`, … are enabled wherever Python allows
 them; theorems quantify over every label sequence.  Deliberate over-approximation (M1): a cancellation pending on a task
-may also be delivered at a suspension point of `__aenter__` before anything is entered (`enterfail`) or of `__aexit__`
+may also be delivered at a suspension point of `__aenter__` before the body (`enterfail`) or of `__aexit__`
 after the group has finished (second way of enabling `left … cancelled`); the pinned code has no such suspension points,
-a harmless extra `await` there must not break the correspondence. Core Lean only. -/
+a harmless extra `await` there must not break the correspondence.  Scopes with disposables: the disposables themselves
+are C02/C08; here only their effect on the group is modelled – a failing enter (`enterfail`) and the exit reason handed
+to the group after the cleanup (`cleanupEnd`). Core Lean only. -/
 namespace Haiway.Groups
 
 inductive Outcome where
@@ -119,7 +121,8 @@ inductive Label where
   | start (t : Nat)
   | silentEnd (t : Nat)                    -- silent: a task cancelled before its first step ends cancelled without running
   | enter (t b : Nat) (isAsync : Bool)
-  | enterfail (t b : Nat)                  -- a pending cancellation delivered at a suspension point of `__aenter__` before anything is entered
+  | enterfail (t b : Nat) (o : Outcome)    -- `__aenter__` of an async scope fails before the body: a disposable raises (user code), or a pending
+                                           -- cancellation is delivered at a suspension point of the enter; the group never gets members
   | spawn (t c : Nat) (viaGroup : Bool)    -- `ctx.spawn` (true) / plain `loop.create_task` (false)
   | spawnfail (t c : Nat)                  -- `ctx.spawn` raised RuntimeError
   | await (t g : Nat)
@@ -129,6 +132,10 @@ inductive Label where
   | check (t : Nat) (raised : Bool)        -- `ctx.check_cancellation()`
   | cancelself (t : Nat)                   -- `ctx.cancel()`
   | bodyEnd (t b : Nat) (o : Outcome)      -- body of the async block ended; `__aexit__` begins
+  | cleanupEnd (t b : Nat) (o : Outcome) (consumed : Bool)
+      -- scope with disposables: their cleanup is over and the group exit begins with exit reason `o`: the body's outcome,
+      -- or an exception raised by a disposable (user code), or – `consumed` – a cancellation delivered to the task while
+      -- the cleanup was awaited
   | left (t b : Nat) (o : Outcome)         -- control leaves the block with outcome o
   | deliver (t : Nat)                      -- silent: CancelledError thrown into the wait loop of `TaskGroup.__aexit__`
   | reap (c : Nat)                         -- silent: `_on_task_done` of a finished member runs
@@ -217,10 +224,14 @@ def step (s : Sys) : Label → Option Sys
         else some (setGroup (setTask s t { T with frames := ⟨b, true⟩ :: T.frames }) b { owner := t, entered := true })
       else some (setTask s t { T with frames := ⟨b, false⟩ :: T.frames })
     else none
-  | .enterfail t _ =>
+  | .enterfail t _ o =>
     let T := s.tasks t
-    if T.status = .body ∧ T.mustCancel = true then
-      some (setTask s t { T with status := .unwinding .cancelled, mustCancel := false })
+    if T.status = .body then
+      match o with
+      | .ok => none
+      | .exc _ => some (setTask s t { T with status := .unwinding o })
+      | .cancelled =>
+        if T.mustCancel then some (setTask s t { T with status := .unwinding .cancelled, mustCancel := false }) else none
     else none
   | .spawn t c viaGroup =>
     let T := s.tasks t
@@ -274,6 +285,18 @@ def step (s : Sys) : Label → Option Sys
     match T.frames with
     | f :: _ => if f = ⟨b, true⟩ ∧ bodyOutcome T = some o then some (beginExit s t b o) else none
     | [] => none
+  | .cleanupEnd t b o consumed =>
+    let T := s.tasks t
+    match T.frames, bodyOutcome T with
+    | f :: _, some o0 =>
+      if f = ⟨b, true⟩ then
+        if consumed then
+          if T.mustCancel ∧ o = .cancelled then
+            some (beginExit (setTask s t { T with mustCancel := false }) t b .cancelled)
+          else none
+        else if o = o0 ∨ o.isExc then some (beginExit s t b o) else none
+      else none
+    | _, _ => none
   | .left t b o =>
     let T := s.tasks t
     match T.frames with
